@@ -11,7 +11,7 @@ import TflModel.Lemmas.Ensembles
 * T1 `table_rows_ok` / `table_loadable` (`decide +kernel` over the WHOLE regenerated table): every
   class meets `RowOK` except exactly the four premade models (finding F-C11-d: the `dtype`
   constructor argument is not serialised), and every class is reloadable under
-  `premade.get_custom_objects()` except exactly `CDF` (finding F-C11-e).
+  `premade.get_custom_objects()` (`CDF` too since fix 029a324; F-C11-e fixed).
 * T2 `valSem_idem`: the normalisers modelled in Lean (`utils.canonicalize_*`, the single-tuple
   wrap, the `Linear` monotonicity broadcast, the CDF float default) are idempotent in the strong
   form the theorem needs, and tuple↔list insensitive (`Lemmas/Verify.lean`).
@@ -208,9 +208,9 @@ theorem F_C11_d_dtype_not_serialised :
 
 /-- **C11-T1 (registry).** Every class of the table can be deserialised under
 `premade.get_custom_objects()` (registered there, or wrapped in a `custom_object_scope` by the
-layer that owns it) except exactly `CDF` (finding F-C11-e). -/
+layer that owns it) — `CDF` included since fix 029a324 (finding F-C11-e, fixed). -/
 theorem table_loadable :
-    (rows.filter (fun r => !Loadable r)).map (·.cls) = ["CDF"] := by
+    (rows.filter (fun r => !Loadable r)).map (·.cls) = [] := by
   decide +kernel
 
 /-- the table is not empty and covers layers, constraints, initialisers, regularisers, configs
@@ -252,6 +252,34 @@ theorem linearBroadcast_idem (n m : Nat) (v : Val) :
   | s t xs => rfl
   | a x => cases x <;> rfl
 
+theorem asTuples_idem (v : Val) : asTuples (asTuples v) = asTuples v := by
+  cases v with
+  | a x => rfl
+  | s t xs =>
+    simp only [asTuples]
+    by_cases h : (!xs.isEmpty && xs.all isSeqItem) = true
+    · rw [if_pos h]
+      have hc : (!(xs.map toTupleItem).isEmpty && (xs.map toTupleItem).all isSeqItem) = true := by
+        simp only [Bool.and_eq_true, Bool.not_eq_true', List.isEmpty_eq_false_iff, List.all_eq_true] at h ⊢
+        refine ⟨by simpa using h.1, ?_⟩
+        intro it hit
+        obtain ⟨x, hx, rfl⟩ := List.mem_map.mp hit
+        have := h.2 x hx
+        cases x <;> simp_all [toTupleItem, isSeqItem]
+      simp only [hc, if_true, List.map_map]
+      congr 1
+      apply List.map_congr_left
+      intro x _
+      cases x <;> rfl
+    · rw [if_neg h]
+      simp only [if_neg h]
+
+/-- **F-C11-f, fixed by 7780660** a dominance pair that came back from JSON as a list is stored as a
+tuple again (hashable), and agrees with what the tuple spelling stores -/
+theorem fixed_C11_f_pairs_are_tuples (a b : Atom) :
+    asTuples (.s false [.s false [a, b]]) = .s false [.s true [a, b]] ∧
+    asTuples (.s false [.s true [a, b]]) = .s false [.s true [a, b]] := ⟨rfl, rfl⟩
+
 theorem toFloat_idem (c c' v : Val) : toFloat c' (toFloat c v) = toFloat c v := by
   cases v with
   | s t xs => rfl
@@ -267,17 +295,18 @@ theorem toFloat_idem (c c' v : Val) : toFloat c' (toFloat c v) = toFloat c v := 
 modelled normaliser: the un-normalised read is the identity and each normaliser `N` satisfies
 `N o' (N o v) = N o v` for all contexts — `canonicalize_monotonicities / monotonicity /
 unimodalities / trust`, the single-tuple wrap of `Lattice.__init__`, the monotonicity broadcast of
-`Linear.__init__` and the float default of `CDF.__init__`. -/
+`Linear.__init__`, the float default of `CDF.__init__` and the tuple canonicalisation of the
+`LatticeConstraints` dominance pairs (fix 7780660). -/
 theorem valSem_idem : (∀ o v, valSem.norm idNorm o v = v) ∧
     ∀ n ∈ modelledNorms, ∀ (o o' : String → Val) (v : Val),
       valSem.norm n o' (valSem.norm n o v) = valSem.norm n o v := by
   refine ⟨fun o v => by simp [valSem, valNorm, idNorm, nCanonMono0, nCanonMono1, nCanonTrust, nCanonUni,
-    nWrapSingle, nLinearMono, nFloatOr], ?_⟩
+    nWrapSingle, nLinearMono, nFloatOr, nAsTuples], ?_⟩
   intro n hn o o' v
   simp only [modelledNorms, List.mem_cons, List.mem_nil_iff, or_false] at hn
-  rcases hn with rfl | rfl | rfl | rfl | rfl | rfl | rfl | rfl | rfl
-  · simp [valSem, valNorm, idNorm, nCanonMono0, nCanonMono1, nCanonTrust, nCanonUni, nWrapSingle, nLinearMono, nFloatOr]
-  · simp [valSem, valNorm, nCanonMono0, nCanonMono1, nCanonTrust, nCanonUni, nWrapSingle, nLinearMono, nFloatOr]
+  rcases hn with rfl | rfl | rfl | rfl | rfl | rfl | rfl | rfl | rfl | rfl
+  · simp [valSem, valNorm, idNorm, nCanonMono0, nCanonMono1, nCanonTrust, nCanonUni, nWrapSingle, nLinearMono, nFloatOr, nAsTuples]
+  · simp [valSem, valNorm, nCanonMono0, nCanonMono1, nCanonTrust, nCanonUni, nWrapSingle, nLinearMono, nFloatOr, nAsTuples]
   · simp only [valSem, valNorm, if_true]
     exact orSelf_canon_idem (canonMonotonicities false) atomsVal (canonMonotonicities_idem false) v
   · have e1 : nCanonMono1 ≠ nCanonMono0 := by decide +kernel
@@ -316,6 +345,15 @@ theorem valSem_idem : (∀ o v, valSem.norm idNorm o v = v) ∧
     have e6 : nFloatOr ≠ nLinearMono := by decide +kernel
     simp only [valSem, valNorm, e1, e2, e3, e4, e5, e6, if_false, if_true]
     exact toFloat_idem _ _ v
+  · have e1 : nAsTuples ≠ nCanonMono0 := by decide +kernel
+    have e2 : nAsTuples ≠ nCanonMono1 := by decide +kernel
+    have e3 : nAsTuples ≠ nCanonTrust := by decide +kernel
+    have e4 : nAsTuples ≠ nCanonUni := by decide +kernel
+    have e5 : nAsTuples ≠ nWrapSingle := by decide +kernel
+    have e6 : nAsTuples ≠ nLinearMono := by decide +kernel
+    have e7 : nAsTuples ≠ nFloatOr := by decide +kernel
+    simp only [valSem, valNorm, e1, e2, e3, e4, e5, e6, e7, if_false, if_true]
+    exact asTuples_idem v
 
 /-- **C11 (T0 + T1 + T2 together).** For every class of the regenerated table other than the four
 premade models, every semantics that agrees with the Lean models on the modelled normalisers and
